@@ -4,6 +4,7 @@ package vault
 
 import (
 	"bytes"
+	"math/rand"
 	"context"
 	"crypto/sha256"
 	"encoding/json"
@@ -27,6 +28,7 @@ import (
 	"github.com/tailscale/setec/server"
 	"github.com/tailscale/setec/types/api"
 	"github.com/tink-crypto/tink-go/v2/aead"
+	"github.com/tink-crypto/tink-go/v2/insecurecleartextkeyset"
 	"github.com/tink-crypto/tink-go/v2/keyset"
 	"github.com/tink-crypto/tink-go/v2/tink"
 	"tailscale.com/client/tailscale/apitype"
@@ -98,6 +100,36 @@ func NewKEK() *countingAEAD {
 		panic(err)
 	}
 	return &countingAEAD{inner: a}
+}
+
+func newRand(seed int64) *rand.Rand { return rand.New(rand.NewSource(seed*7919 + 13)) }
+
+// KEKFromFile loads a cleartext tink keyset (test keys only).
+func KEKFromFile(path string) (*countingAEAD, error) {
+	b, err := os.ReadFile(path)
+	if err != nil {
+		return nil, err
+	}
+	h, err := insecurecleartextkeyset.Read(keyset.NewJSONReader(bytes.NewReader(b)))
+	if err != nil {
+		return nil, err
+	}
+	a, err := aead.New(h)
+	if err != nil {
+		return nil, err
+	}
+	return &countingAEAD{inner: a}, nil
+}
+
+
+// OpenSys opens (or creates) the database in dir/db/state.db with the given key.
+func OpenSys(dir string, kek *countingAEAD, d *Dict) (*Sys, error) {
+	os.MkdirAll(filepath.Join(dir, "db"), 0o700)
+	s := &Sys{Dir: dir, Path: filepath.Join(dir, "db", "state.db"), KEK: kek, D: d}
+	if err := s.open(); err != nil {
+		return nil, err
+	}
+	return s, nil
 }
 
 // ---- audit sink: an io.Writer with Sync that the harness owns (C06) ----
@@ -311,6 +343,9 @@ type Sys struct {
 	curRules acl.Rules
 	flip     int
 
+	// AfterCall, if set, is called by Do after every call with the audit bytes the call wrote.
+	AfterCall func(c Call, sinkBytes []byte)
+
 	AuditBroken bool // an injected audit write failure has latched the real encoder's error
 
 	whoMu  sync.Mutex
@@ -425,6 +460,12 @@ func (s *Sys) aclRules(rj []RuleJ) acl.Rules {
 	}
 	return out
 }
+
+// SuRules is the all-access rule set.
+func SuRules() []RuleJ { return suRules }
+
+// NoSubst makes the dictionary the identity on names and patterns.
+func (d *Dict) NoSubst() { d.sigma = map[rune]rune{} }
 
 var suRules = []RuleJ{{Action: []string{"get", "info", "put", "activate", "delete"}, Secret: [][]int{{42}}}}
 
@@ -566,7 +607,15 @@ func (s *Sys) Do(c Call) (out Outcome) {
 		out.Notes = append(out.Notes, fmt.Sprintf("write generation advanced by %d in one call", postGen-preGen))
 	}
 	// audit records produced by this call
-	for _, w := range s.Sink.Take() {
+	taken := s.Sink.Take()
+	if s.AfterCall != nil {
+		var sb []byte
+		for _, w := range taken {
+			sb = append(sb, w.Data...)
+		}
+		s.AfterCall(c, sb)
+	}
+	for _, w := range taken {
 		if !bytes.HasSuffix(w.Data, []byte("\n")) || bytes.Count(w.Data, []byte("\n")) != 1 {
 			out.Notes = append(out.Notes, fmt.Sprintf("audit write is not exactly one line: %q", w.Data))
 		}
